@@ -214,6 +214,29 @@ CHECKS["C18"] = dict(
                "mutants and call histories executed on the real registry "
                "and validated by TLC (RegistryTrace.tla)"))
 
+CHECKS["C19"] = dict(
+    engine="Profile", category="model_checking",
+    text=("Profile.tla models the store (several Profile objects over one "
+          "file, write-through defaults; invariant ReadYourWrites) and the "
+          "interactive setup (one step per prompt: skipped / valid answer "
+          "stored / invalid answer asked again; invariant "
+          "SetupProducesAcceptable, property AnswerStored), model-checked "
+          "by TLC. Conformance on the real code: set/get/get_fit_params "
+          "histories (every operation through a NEW Profile object; all "
+          "single operations and same-key pairs, sampled longer ones) from "
+          "an empty, a JSON and a legacy key=value file incl. fit-parameter "
+          "lines; the real setup_profile() driven by scripted input() for "
+          "every single prompt answer (valid and invalid), the coupled "
+          "groups (range type x left x right, model x parameters) and "
+          "sampled combinations, each followed by the real batch fit "
+          "fit_data on a recorded curve; fit_perform on a folder of 5 "
+          "curves for the statistics rows. TLC validates every recorded "
+          "event / script / row set (ProfileTrace.tla)."),
+    design_ref="5 (C19), 3.3", note=TB,
+    technique=("TLA+ store + dialogue design model-checked by TLC; scripted "
+               "runs of the real dialogue and store histories validated by "
+               "TLC (ProfileTrace.tla)"))
+
 NOT_APPLICABLE = {
     "C01": ("Recovery of ground-truth parameters to optimiser precision is "
             "numerical convergence of lmfit/MINPACK on real-valued data; it "
